@@ -1,7 +1,7 @@
 """C02 — parallel evaluation equals serial evaluation under every schedule."""
 from . import core, eng, gen, engcheck
 
-THEOREMS = ["runPar_eq_leastModel", "par_eq_serial", "par_schedule_independent", "nd_eq_leastModel", "nd_runs_agree", "par_is_nd", "runPhysPar_eq_leastModel", "runPhysPar_schedule_pool_independent", "tcPar_hyps", "runPhysParLat_spec", "runPhysParLat_spec_antisymm", "runPhysParLat_needs_flag_law", "distPar_hyps", "runPhysPar_agg_eq_model", "runPhysPar_agg_schedule_pool_independent"]
+THEOREMS = ["runPar_eq_leastModel", "par_eq_serial", "par_schedule_independent", "nd_eq_leastModel", "nd_runs_agree", "par_is_nd", "runPhysPar_eq_leastModel", "runPhysPar_schedule_pool_independent", "tcPar_hyps", "runPhysParLat_spec", "runPhysParLat_spec_antisymm", "runPhysParLat_needs_flag_law", "std_hff_maxmin", "distPar_hyps", "runPhysPar_agg_eq_model", "runPhysPar_agg_schedule_pool_independent"]
 TRUSTED = ["Lean 4.33.0 kernel", "axioms: propext, Classical.choice, Quot.sound only (audited per theorem)",
            "statement: Props/C02.lean (the parallel iteration as an arbitrary interleaving of atomic head updates over frozen total/delta; "
            "every schedule computes the least model, hence equals the serial result)",
